@@ -6,10 +6,12 @@
 //!   F|<cmap hex>|<os2>|<char,char,...>   Cmap::read + find_good_cmap_subtable, Font::new +
 //!                                        lookup_glyph_index (os2: - = no OS/2 table, x = truncated
 //!                                        OS/2 table, N = usFirstCharIndex)
+//!   B|c|lo|hi  /  B|b|lo|hi              Big5 conversions over a whole range of scalar values / codes
 //!   M|<byte,...>|<char,...>              macroman_to_char / char_to_macroman and the way back
 use allsorts::binary::read::ReadScope;
 use allsorts::error::ParseError;
 use allsorts::font::{find_good_cmap_subtable, Encoding, MatchingPresentation};
+use allsorts::big5::{big5_to_unicode, unicode_to_big5};
 use allsorts::macroman::{char_to_macroman, macroman_to_char};
 use allsorts::tables::cmap::{Cmap, CmapSubtable};
 use allsorts::tables::FontTableProvider;
@@ -229,12 +231,45 @@ fn run_macroman(bytes: &[u32], chars: &[u32]) -> String {
     format!("b={};c={}", b.join(","), c.join(","))
 }
 
+/// Big5: the two conversions over a whole range, reported as counts and the first few failures.
+///   B|c|lo|hi : every scalar value in [lo, hi): unicode_to_big5(c) = Some(b)  =>  big5_to_unicode(b) = Some(c)
+///   B|b|lo|hi : every code in [lo, hi): big5_to_unicode(b) = Some(c) and unicode_to_big5(c) = Some(b2)  =>  big5_to_unicode(b2) = Some(c)
+fn run_big5(dir: &str, lo: u32, hi: u32) -> String {
+    let (mut mapped, mut bad) = (0u32, vec![]);
+    for v in lo..hi {
+        let ok = guarded(|| {
+            if dir == "c" {
+                match char::from_u32(v).and_then(|c| unicode_to_big5(c).map(|b| (c, b))) {
+                    None => "skip".to_string(),
+                    Some((c, b)) => if big5_to_unicode(b) == Some(c) { "ok".to_string() } else { format!("{:x}>{:x}>{:x}", v, b, big5_to_unicode(b).map_or(0xffff_ffff, |x| x as u32)) },
+                }
+            } else {
+                match big5_to_unicode(v as u16).and_then(|c| unicode_to_big5(c).map(|b2| (c, b2))) {
+                    None => "skip".to_string(),
+                    Some((c, b2)) => if big5_to_unicode(b2) == Some(c) { "ok".to_string() } else { format!("{:x}>{:x}>{:x}", v, c as u32, b2) },
+                }
+            }
+        });
+        if ok == "ok" {
+            mapped += 1;
+        } else if ok != "skip" {
+            if bad.len() < 8 {
+                bad.push(ok);
+            } else {
+                bad[7] = "more".to_string();
+            }
+        }
+    }
+    format!("mapped={};bad={}", mapped, bad.join(","))
+}
+
 pub fn run(input: &str) -> String {
     let parts: Vec<&str> = input.split('|').collect();
     match parts.as_slice() {
         ["S", h, p] => run_subtable(&unhex(h), &parse_list(p)),
         ["F", h, os2, p] => run_font(&unhex(h), os2, &parse_list(p)),
         ["M", b, c] => run_macroman(&parse_list(b), &parse_list(c)),
+        ["B", d, lo, hi] => run_big5(d, lo.parse().unwrap_or(0), hi.parse().unwrap_or(0)),
         _ => "badinput".to_string(),
     }
 }
